@@ -62,7 +62,8 @@ class WorldC06(World):
               'write-after-failed-write', 'recovery-after-fault', 'read-back-gas', 'read-back-surf', 'read-of-torn-file',
               'read-absent', 'fault-did-not-fire', 'clock-jump-before-write', 'same-model-written-twice',
               'dimensionless-activation', 'gibbs-activation', 'eight-conditions', 'custom-delimiters',
-              'mole-fraction-missing-species', 'EA-gas', 'EA-surface', 'reactants-gas-products-surface')
+              'mole-fraction-missing-species', 'EA-gas', 'EA-surface', 'reactants-gas-products-surface',
+              'equal-but-distinct-site-objects', 'EA-pressure-series-at-one-T', 'sticking-coefficient-zero')
     REAL = ('pmutt.io.chemkin writers and read_reactions', 'pmutt.reaction.ChemkinReaction / Reactions', 'pmutt.chemkin.CatSite',
             'pmutt.empirical.nasa.Nasa', 'pmutt.io._get_file_timestamp')
     SIMULATED = ('disk: SimFS (open/write/close errors, ENOSPC after k characters, crash at four points, read errors)',
@@ -148,7 +149,8 @@ class WorldC06(World):
                 n = st()
                 rxd.update(reactants=[[rng.choice(gas), 1], [sites[i]['vacant'], n]],
                            products=[[rng.choice(ads), rng.choice([1, n])], [sites[i]['bulk'], n]],
-                           is_adsorption=True, sticking_coeff=round(rng.uniform(0.01, 1.0), 3))
+                           is_adsorption=True,
+                           sticking_coeff=rng.choice([round(rng.uniform(0.01, 1.0), 3)] * 5 + [0.0, 1.0]))
                 tphase = None
             elif kind == 'odd':
                 rxd.update(reactants=[[rng.choice(gas), 1]], products=[[rng.choice(ads), st()]])
@@ -167,7 +169,8 @@ class WorldC06(World):
                            'shift': round(rng.uniform(0, 12000), 1)})
                 rxd['ts'] = tn
             rxs.append(rxd)
-        return {'sites': sites, 'species': species, 'ts': ts, 'reactions': rxs}
+        return {'sites': sites, 'species': species, 'ts': ts, 'reactions': rxs,
+                'site_objects': rng.choice(['shared', 'shared', 'per-species'])}
 
     def _gen_opts(self, rng, kind):
         sw = self.ctx.swarm
@@ -187,6 +190,9 @@ class WorldC06(World):
         if kind == 'write_EA':
             n = rng.choice([1, 2, 3, 8])
             o['conditions'] = [{'T': round(rng.uniform(250, 1200), 1), 'P': round(10 ** rng.uniform(-2, 1), 3)} for _ in range(n)]
+            for j in range(1, n):
+                if rng.random() < 0.35:      # a pressure series at one temperature
+                    o['conditions'][j]['T'] = o['conditions'][rng.randrange(j)]['T']
             o['write_gas_phase'] = rng.random() < 0.4
             o['act_method_name'] = rng.choice(['get_EoRT_act', 'get_HoRT_act', 'get_GoRT_act'])
             o['ads_act_method'] = rng.choice(['get_HoRT_act', 'get_GoRT_act'])
@@ -244,7 +250,14 @@ class WorldC06(World):
                                T_high=3500.0, a_low=lo, a_high=hi)
             if d['site'] is not None:
                 # as in the project's example: the site is assigned after the species is made, before the reactions are
-                o.cat_site = sites[d['site']]
+                if md.get('site_objects') == 'per-species':
+                    # one equal CatSite object per species row, as a spreadsheet or JSON loader makes them
+                    st = md['sites'][d['site']]
+                    o.cat_site = self.pck.CatSite(name=st['name'], site_density=st['site_density'], density=st['density'],
+                                                  bulk_specie=st['bulk'])
+                    self.ctx.probe('equal-but-distinct-site-objects')
+                else:
+                    o.cat_site = sites[d['site']]
                 o.n_sites = d['n_sites']
             sp[d['name']] = o
         rxs = []
@@ -546,6 +559,8 @@ class WorldC06(World):
                     ctx.probe('gas-reaction-in-mechanism')
                 elif r['is_adsorption']:
                     ctx.probe('adsorption-reaction')
+                    if r['sticking_coeff'] == 0:
+                        ctx.probe('sticking-coefficient-zero')
                 else:
                     ctx.probe('surface-reaction-with-ts' if r['ts'] else 'surface-reaction-without-ts')
                 if any(n > 1 for _, n in r['reactants'] + r['products']):
@@ -595,6 +610,8 @@ class WorldC06(World):
         elif name == 'write_EA':
             gasw = o['write_gas_phase']
             ctx.probe('EA-gas' if gasw else 'EA-surface')
+            if len(set(c['T'] for c in o['conditions'])) < len(o['conditions']):
+                ctx.probe('EA-pressure-series-at-one-T')
             if len(o['conditions']) == 8:
                 ctx.probe('eight-conditions')
             try:
